@@ -357,3 +357,95 @@ silent("c01_equivalent_forms", "C01", [(NODE, '''            cid_data += f":{f.n
             cid_data += f"{type(val)}({val!s})"
 ''', '''            cid_data = cid_data + ":" + str(f.name) + "=" + f"{type(val)}" + "(" + str(val) + ")"
 '''), (NODE, "        if type(other) is not type(self):\n            return False\n", "        if not (type(self) is type(other)):\n            return False\n")])
+
+# ---------------------------------------------------------------- C02
+fire("c02_eq_children_only_direct", "C02", [(NODE, "            for si, oi in zip(self.dfs(), other.dfs(), strict=True):\n                if si.node.origin != oi.node.origin:",
+      "            for si, oi in zip(self.get_child_nodes_with_field(), other.get_child_nodes_with_field(), strict=True):\n                if si[0].origin != oi[0].origin:")], "R-FULLTRAV")
+fire("c02_eq_pruned_traversal", "C02", [(NODE, "zip(self.dfs(), other.dfs(), strict=True)", "zip(self.dfs(prune=lambda n: True), other.dfs(prune=lambda n: True), strict=True)")], "R-FULLTRAV")
+fire("c02_eq_no_root_origin", "C02", [(NODE, "        if self.content_id == other.content_id and self.origin == other.origin:", "        if self.content_id == other.content_id:")], "R-EQ-FORM")
+fire("c02_eq_isinstance", "C02", [(NODE, "    if other.__class__ is self.__class__:\n        if self.content_id", "    if isinstance(other, self.__class__):\n        if self.content_id")], "R-EQ-FORM")
+fire("c02_eq_origin_identity", "C02", [(NODE, "                if si.node.origin != oi.node.origin:", "                if si.node.origin is not oi.node.origin:")], "R-EQ-FORM")
+fire("c02_eq_reads_other_first", "C02", [(NODE, "    if other.__class__ is self.__class__:\n        if self.content_id == other.content_id and self.origin == other.origin:",
+      "    if self.content_id == other.content_id and other.__class__ is self.__class__:\n        if self.origin == other.origin:")], "R-EQ-FORM")
+fire("c02_eq_loop_polarity", "C02", [(NODE, "                if si.node.origin != oi.node.origin:\n                    return False", "                if si.node.origin == oi.node.origin:\n                    return False")], "R-EQ-FORM")
+fire("c02_hash_content", "C02", [(NODE, "    return hash(node.id)", "    return hash(node.content_id)")], "R-HASH-CONST")
+fire("c02_no_eq_install", "C02", [(NODE, "        cls.__eq__ = _eq_fn  # type: ignore[assignment]\n", "")], "R-EQ-INSTALL")
+fire("c02_origin_custom_eq", "C02", [(ORIGIN, "    def get_raw(self) -> str | None:\n        \"\"\"Returns the code chunk inside this range.\"\"\"", "    def __eq__(self, other: object) -> bool:\n        return isinstance(other, CodeOrigin) and self.source == other.source\n\n    def get_raw(self) -> str | None:\n        \"\"\"Returns the code chunk inside this range.\"\"\"")], "R-ORIGIN-EQ")
+silent("c02_equivalent", "C02", [(NODE, '''    if other.__class__ is self.__class__:
+        if self.content_id == other.content_id and self.origin == other.origin:
+            # If content matches and origin matches, we only need to check
+            # children origins. Content is guaranteed to be the same
+            for si, oi in zip(self.dfs(), other.dfs(), strict=True):
+                if si.node.origin != oi.node.origin:
+                    return False
+
+            return True
+
+    return False
+''', '''    if type(self) is not type(other):
+        return False
+    if self.content_id != other.content_id:
+        return False
+    if not (self.origin == other.origin):
+        return False
+    for a, b in zip(self.bfs(), other.bfs()):
+        if not (a.node.origin == b.node.origin):
+            return False
+    return True
+''')])
+
+# ---------------------------------------------------------------- C03 / C14
+fire("c03_detach_direct_only", "C03", [(NODE, "        for ni in self.dfs():\n            _unregister(ni.node)\n", "        for c in self.get_child_nodes():\n            _unregister(c)\n")], "R-DETACH-ALL")
+fire("c03_F04_reverted_helper", ["C03", "C14"], [(NODE, '''    if NODE_REGISTRY.get(node.id) is node:
+        del NODE_REGISTRY[node.id]
+        return True
+
+    return False
+''', '''    return NODE_REGISTRY.pop(node.id, None) is not None
+''')], "R-REG-IDENT")
+fire("c03_replace_no_restore", ["C03", "C14"], [(NODE, '''            if ori_n is not None:
+                NODE_REGISTRY[ori_n.id] = ori_n
+
+            raise e
+''', '''            raise e
+''')], "R-REG-PAIR")
+fire("c03_replace_narrow_except", "C03", [(NODE, "            new_node = replace(self, **kwargs)\n        except Exception as e:", "            new_node = replace(self, **kwargs)\n        except ValueError as e:")], "R-REG-PAIR")
+fire("c03_replace_restores_on_success", "C03", [(NODE, '''            raise e
+
+        return new_node
+''', '''            raise e
+
+        if ori_n is not None:
+            NODE_REGISTRY[ori_n.id] = ori_n
+        return new_node
+''')])
+fire("c03_register_without_freshness", "C03", [(NODE, '''        if new_id in NODE_REGISTRY:
+            # Node with the same ID already exists
+            # This may mean two things:
+            # 1. The same node (equality wise) is already in the registry
+            # 2. Hash collision
+            # In either case, we need to generate a new ID
+            new_id = _get_next_unique_id(new_id)
+''', '')], "R-REG-FRESH")
+fire("c03_unique_id_loop_broken", "C03", [(NODE, "    while NODE_REGISTRY.get(id_) is not None:", "    while NODE_REGISTRY.get(original_id) is None:")], "R-REG-FRESH")
+fire("c03_strong_cache", "C03", [(NODE, "NODE_REGISTRY: weakref.WeakValueDictionary[str, ASTNode] = weakref.WeakValueDictionary()", "NODE_REGISTRY: dict[str, ASTNode] = {}")], "R-REG-WEAK")
+fire("c03_strong_side_cache", "C03", [(NODE, "        # Register in the registry\n        NODE_REGISTRY[new_id] = self\n", "        # Register in the registry\n        NODE_REGISTRY[new_id] = self\n        _ALL.append(self)\n"), (NODE, "def _get_next_unique_id(", "_ALL: list = []\n\n\ndef _get_next_unique_id(")], "R-REG-WEAK")
+fire("c03_foreign_registry_writer", "C03", [(TREE, "        self._root = root\n", "        self._root = root\n        from .node import NODE_REGISTRY\n        NODE_REGISTRY.pop(root.id, None)\n")], "R-REG-OWN")
+fire("c03_id_counter", "C03", [(NODE, '        id_data = f"{self.__class__.__name__}@{self.origin.fqn}{cid_data}"', '        id_data = f"{self.__class__.__name__}@{self.origin.fqn}{id(self)}{cid_data}"')], "R-ID-DET")
+fire("c03_id_without_origin", "C03", [(NODE, '        id_data = f"{self.__class__.__name__}@{self.origin.fqn}{cid_data}"', '        id_data = f"{self.__class__.__name__}@{cid_data}"')], "R-ID-DET")
+fire("c03_get_strict_ignored", "C03", [(NODE, "        elif strict and not type(ret) == cls:\n            return default\n        elif not strict and not isinstance(ret, cls):", "        elif not isinstance(ret, cls):")], "R-GET-FORM")
+fire("c03_get_returns_none_not_default", "C03", [(NODE, "        if ret is None:\n            return default\n        elif strict", "        if ret is None:\n            return None\n        elif strict")], "R-GET-FORM")
+silent("c03_equivalent_guard", ["C03", "C14"], [(NODE, '''    if NODE_REGISTRY.get(node.id) is node:
+        del NODE_REGISTRY[node.id]
+        return True
+
+    return False
+''', '''    if not (NODE_REGISTRY.get(node.id) is node):
+        return False
+    NODE_REGISTRY.pop(node.id)
+    return True
+''')])
+fire("c14_duplicate_shallow_tuple", "C14", [(NODE, "                changes[f.name] = tuple(c.duplicate() for c in obj)", "                changes[f.name] = tuple(c for c in obj)")], "R-DUP-SANITIZE")
+fire("c14_duplicate_no_tuple_branch", "C14", [(NODE, "            elif isinstance(obj, tuple):\n                changes[f.name] = tuple(c.duplicate() for c in obj)\n", "")], "R-DUP-SANITIZE")
+fire("c14_replace_no_unregister", "C14", [(NODE, "        ori_n = self if _unregister(self) else None\n", "        ori_n = None\n")])
+fire("c14_duplicate_detaches_original", "C14", [(NODE, "        changes: dict[str, Any] = {}\n        for obj, f in self.iter_child_fields():", "        _unregister(self)\n        changes: dict[str, Any] = {}\n        for obj, f in self.iter_child_fields():")], "R-REPLACE-FORM")
